@@ -8,6 +8,7 @@ import AvoVerif.Props.C13Tables
 #print axioms Avo.Data.data_lines
 #print axioms Avo.Data.data_end_to_end
 #print axioms Avo.Data.nonmonotone_rejected_witness
+#print axioms Avo.Data.f32_text_fails_at_F11
 #print axioms Avo.Quote.unquote_quote
 #print axioms Avo.NumText.parseIntLit_intDecPlus
 #print axioms Avo.NumText.parseIntLit_hexPad
